@@ -366,7 +366,39 @@ func c16ResolveCheck(ctx *vfCtx, c c16ResolveCase) {
 			}
 			want = append(want, "["+strings.TrimSpace(b.String())+"]")
 		}
-		ctx.Fail("C16/resolve/"+exp.Step+"/"+kind, "ResolveServer(%q) wk=%+v srvOrig=%+v srvDeleg=%+v: %s; want %s (%s)", c.Name, c.WK, c.SRVOrig, srvD, show(), strings.Join(want, " or "), first)
+		sig := "C16/resolve/" + exp.Step + "/" + kind
+		// name the root cause when the result is exactly what the other verdict on the well-known
+		// reply would give
+		if passesStep2 && c.WK.Mode == "reply" {
+			honoured, why := c16WKHonoured(c.WK)
+			other := c.WK
+			if honoured {
+				other = c16WKSpec{Mode: "neterr"}
+			} else {
+				other.Status, other.Pad, other.Size = 200, "", 0
+			}
+			if nowHonoured, _ := c16WKHonoured(other); nowHonoured != honoured {
+				for _, alt := range c16Resolve(c.Name, other, c.SRVOrig, srvD).Alts {
+					if c16MatchTargets(got, alt) != "" {
+						continue
+					}
+					if honoured {
+						sig = "C16/resolve/well-known-ignored"
+					} else {
+						sig = "C16/resolve/well-known-honoured/" + why
+						if why == "oversize" {
+							if c.WK.NoCL {
+								sig += "/no-content-length"
+							} else {
+								sig += "/content-length"
+							}
+							sig += "/pad-" + c.WK.Pad
+						}
+					}
+				}
+			}
+		}
+		ctx.Fail(sig, "ResolveServer(%q) wk=%+v srvOrig=%+v srvDeleg=%+v: %s; want %s (%s)", c.Name, c.WK, c.SRVOrig, srvD, show(), strings.Join(want, " or "), first)
 		return
 	}
 	// _matrix-fed is asked before _matrix
